@@ -164,7 +164,11 @@ def _chunk(seeds):
                 docB = parse(B)
                 ext = extend_schema(sA, docB)
                 together = build_schema(A + "\n\n" + B)
-                if validate_schema(together) or validate_schema(ext):
+                v_ext, v_tog = validate_schema(ext), validate_schema(together)
+                if bool(v_ext) != bool(v_tog):
+                    viol.append(("extended-and-built-together-disagree-on-validity", {"extended": [e.message for e in v_ext][:2], "together": [e.message for e in v_tog][:2],
+                                                                                       "extension": B[:400]}))
+                elif v_ext:
                     out.append({"skipped": "extension result invalid"})
                 else:
                     pe, pt = print_schema(ext), print_schema(together)
